@@ -106,6 +106,13 @@ def gen_cases(fmt, tier):
         cases.append(mk(fmt, base_r, base_p, a, b, c, 10, 300, 99999, code0, None))
     for w in WINDOWS + (WINDOWS_REAL if fmt in ("umist", "uclchem", "naunet", "krome") else []):
         cases.append(mk(fmt, base_r, base_p, 1e-10, 0.0, 0.0, w[0], w[1], 7, code0, None))
+    if fmt == "leeds":
+        # the index column is an I5 field: Fortran writes it right-justified (leading blanks)
+        for idx in (7, 42, 4956):
+            c = mk(fmt, base_r, base_p, 1e-10, 0.5, 100.0, 10, 300, idx, code0, None)
+            if c is not None:
+                ar_, exp_, line_ = c
+                cases.append((ar_, exp_, f"{idx:>5d}" + line_[5:]))
     return [c for c in cases if c is not None]
 
 
